@@ -284,11 +284,13 @@ def t_attr(a) -> str:
         pop.append(f"(AI {cz(a.i)})")
     if a.HasField("s"):
         pop.append(f"(AS {cstr(a.s)})")
-    if a.HasField("t") and a.t.ListFields():
+    # sub-message presence is kept: a present-but-empty t / g / tp is AT empty / AG empty / ATP unset, an absent
+    # one is ANone (the theorems cover both; norm identifies them)
+    if a.HasField("t"):
         pop.append(f"(AT {t_tensor(a.t)})")
-    if a.HasField("g") and a.g.ListFields():
+    if a.HasField("g"):
         pop.append(f"(AG {t_graph(a.g)})")
-    if a.HasField("tp") and a.tp.ListFields():
+    if a.HasField("tp"):
         pop.append(f"(ATP {t_type(a.tp)})")
     if a.HasField("sparse_tensor") or len(a.sparse_tensors):
         pop.append("ASparse")
@@ -377,6 +379,9 @@ KINDS = {
     "model": ("ModelProto", t_model, "ModelP", "roundtrip_model", "norm_model", "model_eqb", "wf_model"),
     "graph": ("GraphProto", t_graph, "GraphP", "roundtrip_graph", "norm_graph", "graph_eqb_top", "(wf_graph true [])"),
     "tensor": ("TensorProto", t_tensor, "TensorP", "roundtrip_tensor", "norm_tensor", "tensor_eqb", "wf_tensor"),
+    "function": ("FunctionProto", t_function, "FunctionP", "roundtrip_function", "norm_function", "function_eqb",
+                 "(wf_function true true)"),
+    "attr": ("AttributeProto", t_attr, "(AttrP GraphP)", "roundtrip_attr", "norm_attr_top", "attr_eqb_top", "wf_attr_top"),
     "vinfo": ("ValueInfoProto", t_vinfo, "VInfoP", "roundtrip_vinfo", "norm_vinfo", "vinfo_eqb", "wf_vinfo"),
 }
 
@@ -737,9 +742,17 @@ class Gen:
             if self.chance(0.85):
                 a.s = self.r.choice([b"", b"abc", "ü→".encode(), b"\xff\xfe"])
         elif k == "TENSOR":
-            self.tensor(a.t)
+            if self.chance(0.1):
+                a.t.SetInParent()                      # present but empty
+                self.h("attr:present-empty-submessage")
+            else:
+                self.tensor(a.t)
         elif k == "GRAPH":
-            self.graph(a.g, visible, depth + 1, irv)
+            if self.chance(0.1):
+                a.g.SetInParent()
+                self.h("attr:present-empty-submessage")
+            else:
+                self.graph(a.g, visible, depth + 1, irv)
         elif k == "FLOATS":
             a.floats.extend([self.r.choice([0.0, 1.0, -2.5]) for _ in range(self.r.randrange(0, 4))])
         elif k == "INTS":
@@ -753,8 +766,12 @@ class Gen:
             for _ in range(self.r.randrange(0, 3)):
                 self.graph(a.graphs.add(), visible, depth + 1, irv)
         elif k == "TYPE_PROTO":
-            if self.chance(0.9):
+            x = self.r.random()
+            if x < 0.8:
                 self.type(a.tp)
+            elif x < 0.9:
+                a.tp.SetInParent()
+                self.h("attr:present-empty-submessage")
         elif k == "TYPE_PROTOS":
             for _ in range(self.r.randrange(0, 3)):
                 self.type(a.type_protos.add())
@@ -1552,6 +1569,52 @@ def gen_cases(ck, n_models: int) -> dict[str, list[dict]]:
         c = make_case("vinfo", vi, True)
         if c:
             by_kind["vinfo"].append(c)
+        if i % 4 == 1:
+            # a standalone FunctionProto (deserialize_function / serialize_function, no model IR version)
+            fp = onnx.FunctionProto()
+            g.function(fp, 12, i, ["c0", "c1"])
+            c = make_case("function", fp, True)
+            if c:
+                by_kind["function"].append(c)
+        elif i % 20 == 3:
+            fp = onnx.FunctionProto(name="badf", domain="d")
+            fp.input.append("x")
+            bad = g.r.choice(["output-undeclared", "undefined-attr-proto", "ref-attr-proto"])
+            if bad == "output-undeclared":
+                fp.output.append("nowhere")
+            elif bad == "undefined-attr-proto":
+                fp.attribute_proto.add(name="u")
+            else:
+                fp.attribute_proto.add(name="r", ref_attr_name="x", type=onnx.AttributeProto.INT)
+            c = make_case("function", fp, False)
+            if c:
+                c["mutation"] = "function:" + bad
+                by_kind["function"].append(c)
+                ck.hist("unsupported_stream", "function:" + bad)
+        if i % 2 == 0:
+            # a standalone AttributeProto (from_proto / to_proto on an attribute): all kinds, references, subgraphs
+            a = onnx.AttributeProto()
+            g.attr(a, g.r.choice(["alpha", "body", "value"]), [], 0, ["fa", "fb"] if g.chance(0.3) else None, irv=11)
+            c = make_case("attr", a, True)
+            if c:
+                by_kind["attr"].append(c)
+        elif i % 10 == 1:
+            a = onnx.AttributeProto(name="bad")
+            bad = g.r.choice(["undefined", "sparse", "strings", "mismatch"])
+            if bad == "sparse":
+                a.type = onnx.AttributeProto.SPARSE_TENSOR
+                a.sparse_tensor.dims.append(1)
+            elif bad == "strings":
+                a.type = onnx.AttributeProto.STRINGS
+                a.strings.append(b"\xff")
+            elif bad == "mismatch":
+                a.type = onnx.AttributeProto.INT
+                a.f = 1.5
+            c = make_case("attr", a, False)
+            if c:
+                c["mutation"] = "attr:" + bad
+                by_kind["attr"].append(c)
+                ck.hist("unsupported_stream", "attr:" + bad)
     return by_kind
 
 
@@ -1676,7 +1739,7 @@ def search(ck) -> None:
     import onnx
     budget = 600 if not ck.thorough else 6000
     for i in range(budget):
-        kind = ["model", "model", "graph", "tensor", "vinfo"][i % 5]
+        kind = ["model", "model", "graph", "tensor", "vinfo", "attr", "function"][i % 7]
         if kind == "model":
             p = g.model()
         elif kind == "graph":
@@ -1685,6 +1748,12 @@ def search(ck) -> None:
         elif kind == "tensor":
             p = onnx.TensorProto()
             g.tensor(p)
+        elif kind == "attr":
+            p = onnx.AttributeProto()
+            g.attr(p, "alpha", [], 0, None, irv=11)
+        elif kind == "function":
+            p = onnx.FunctionProto()
+            g.function(p, 12, i, ["c0"])
         else:
             p = onnx.ValueInfoProto()
             g.vinfo(p, g.fresh("vi"))
